@@ -612,6 +612,33 @@ func vpGenCase(rng *vrand, id int, mode string) *vpCase {
 		if mode == "c08" {
 			wth, oth = 25, 30
 		}
+		// an empty slice inside a flushed shm chain (Reserve(0) allocates a slot, a larger Reserve skips it):
+		// exercises moveTo's unlinking of empty slices, at the front of the list and behind unread data
+		if x < 6 && p.snd.sendBuf.sliceList.writeSlice == nil && !p.snd.inFallbackState {
+			room := 0
+			for _, l := range p.bm.lists {
+				if l.remain() > 0 {
+					room += l.remain()
+				}
+			}
+			if room >= 3 {
+				n := caps[0] + 1 + rng.intn(3)
+				ok := run(vpOp{K: "WR", A: p.wabs, N: 0}) && run(vpOp{K: "WR", A: p.wabs, N: n})
+				p.wabs += n
+				if !ok || !run(vpOp{K: "FL"}) {
+					return c
+				}
+				p.feat["empty-slice-in-chain"] = true
+				if rng.chance(50) && len(p.avail)+len(p.inflight) > 0 {
+					for k := 0; k < 3 && len(p.avail)+len(p.inflight) > 0; k++ {
+						if !run(vpOp{K: "RY", N: 1}) {
+							return c
+						}
+					}
+				}
+				continue
+			}
+		}
 		switch {
 		case x < wth: // writer
 			n := relSize()
@@ -730,6 +757,11 @@ func vpGenCase(rng *vrand, id int, mode string) *vpCase {
 	if !run(vpOp{K: "CL"}) {
 		return c
 	}
+	// the sender may still own a slot it never flushed (e.g. after Reserve(0)): Stream.Close recycles it
+	func() {
+		defer func() { recover() }()
+		p.snd.sendBuf.recycle()
+	}()
 	fr := p.free()
 	for i := range fr {
 		if fr[i] != p.total[i] {
